@@ -5,9 +5,9 @@
         candidate bins coming from target streams that depend on (bin, m, pass) only.
    That the arg-min of the union is uniform over its items (hence the conditional probability J),
    and the handling of the occupancy pattern, are not formalised: see DESIGN.md. *)
-From Coq Require Import List ZArith Bool.
+From Coq Require Import List ZArith Bool Factorial.
 From PMH Require Import Lib.ListArr Model.ProbMinHash Proofs.ProbMinHash Model.SuperMinHash Model.DensMinHash
-  Gen.FlagsDens Proofs.DensMinHash.
+  Gen.FlagsDens Proofs.DensMinHash Lib.Counting Model.Estimators Gen.EstIdx Proofs.Estimators.
 Import ListNotations.
 Open Scope Z_scope.
 
@@ -35,7 +35,21 @@ Theorem C08_rev_densify_copies_populated : forall rep rt s s', dwf s ->
   dwf s' /\ dens_extends s s' /\ d_empty s' = 0 /\ (forall k, (k < d_m s)%nat -> nthb (d_init s') k = true).
 Proof. exact rev_densify_ok. Qed.
 
+(* the event of C08_collision_iff - an item common to both sets attains the minimum of the union - has, under
+   a uniformly random ranking of the items of the bin, probability |A n B| / |A u B| (counted over all rankings) *)
+Theorem C08_collision_share_under_uniform_ranking : forall (inA inB : nat -> bool) (U : list nat),
+  U <> [] -> NoDup U -> (forall x, In x U -> inA x || inB x = true) ->
+  (length (filter (collide Nat.eqb inA inB) (perms U)) * length U
+   = length (filter (fun x => inA x && inB x) U) * fact (length U))%nat.
+Proof. intros inA inB U. apply (collision_share Nat.eqb Nat.eqb_eq inA inB U). Qed.
+
+Theorem C08_estimator_is_match_fraction : forall a b, length a = length b ->
+  est_run est_jaccard_get_jaccard_index_estimate a b = EstOk (count_eq a b) (length a).
+Proof. exact (fun a b H => est_exact est_jaccard_get_jaccard_index_estimate a b (eq_refl true) H). Qed.
+
 Print Assumptions C08_source_flags.
 Print Assumptions C08_collision_iff.
 Print Assumptions C08_opt_densify_copies_populated.
 Print Assumptions C08_rev_densify_copies_populated.
+Print Assumptions C08_collision_share_under_uniform_ranking.
+Print Assumptions C08_estimator_is_match_fraction.
